@@ -297,6 +297,21 @@ def check_C03(ctx):
                 top = sum(amount[p] for p in pathsl if len(p) == 1)
                 if not close(num(grand[0]), top, Fraction(len(pathsl) + 1, 100)):
                     ctx.violation("C03:grand-total-not-sum-of-top-rows", "grand total %r, top-level rows add up to %s" % (grand[0], top), rep)
+        # the collapsed modes against the files themselves: a row that joins several segments shows ONE amount for all the paths it introduces, so every one
+        # of those paths must have that amount at or below it (a category with entries of its own cannot be joined with its only sub-category)
+        w0 = worlds_by_files.get((key[0], key[1]))
+        exp = expected_balance(w0, key[2]) if w0 is not None else None
+        if exp is not None:
+            for m in dec:
+                if m == "plain": continue
+                shown = set()
+                for p, a, _ in dec[m][0]:
+                    k0 = max((k for k in range(len(p)) if p[:k] in shown), default=0)
+                    for k in range(k0 + 1, len(p) + 1):
+                        shown.add(p[:k])
+                        if p[:k] in exp and not close(num(a), exp[p[:k]], Fraction(1, 100)):
+                            ctx.violation("C03:joined-row-hides-an-amount:" + m, "mode %s prints %s on the row %r, the logged foods at or below %r contribute %s" % (m, num(a), b"/".join(p), b"/".join(p[:k]), exp[p[:k]]), rep)
+                            break
         leaves = {m: [(p, a) for p, a, leaf in d[0] if leaf] for m, d in dec.items()}
         allp = {m: {p[:k] for p, _, _ in d[0] for k in range(1, len(p) + 1)} for m, d in dec.items()}
         if "plain" in dec:
@@ -384,6 +399,25 @@ def check_C05(ctx):
         for cmd in ("reg", "csv-log", "bal"):
             cases.append(dict(files=f, cmd=cmd, f_today="2021/01/02", g_begin=r.choice(["yesterday", "today", "last7"]), g_end=r.choice([None, "today", "yesterday"]), **NOCOLOR))
         cases.append(dict(files=f, cmd="summary", arg=r.choice([b"today", b"yesterday"]), f_today="2021/01/02", **NOCOLOR))
+    # natural-language period dates ("2 days ago") with --today given: the report must not depend on the wall clock, i.e. it is the report for the date
+    # that lies that far before --today (outside the model; the implementation against itself)
+    natural = []
+    for k in range(ctx.scale(6, 60)):
+        days = [datetime.date(2021, 1, 24) - datetime.timedelta(days=j) for j in range(12)]
+        r.shuffle(days)
+        logb = "".join("%s:\n  food%d: %d\n" % (d.strftime("%Y/%m/%d"), j, j + 1) for j, d in enumerate(days)).encode()
+        f = {"food.yaml": b"", "log.yaml": logb}
+        for phrase, back in (("2 days ago", 2), ("1 week ago", 7), ("3 days ago", 3), ("10 days ago", 10)):
+            cmd = r.choice(["print", "reg", "csv-log", "bal", "quantity"])
+            side = r.choice(["g_begin", "g_end"])
+            want = (datetime.date(2021, 1, 24) - datetime.timedelta(days=back)).strftime("%Y/%m/%d")
+            natural.append((dict(files=f, cmd=cmd, f_today="2021/01/24", **{side: phrase}, **NOCOLOR), dict(files=f, cmd=cmd, f_today="2021/01/24", **{side: want}, **NOCOLOR), phrase))
+    nres = impl_only(ctx, [c for a, b2, _ in natural for c in (a, b2)])
+    for j, (a, b2, phrase) in enumerate(natural):
+        x, y = nres[2 * j], nres[2 * j + 1]
+        if (x["status"], x["stdout"]) != (y["status"], y["stdout"]):
+            ctx.violation("C05:depends-on-wall-clock:" + a["cmd"], "%s with %r and --today 2021/01/24 differs from the same run with that date written out (%s): the phrase is resolved against the wall clock: %r / %r"
+                          % ((a["cmd"], phrase, b2.get("g_begin") or b2.get("g_end")) + first_diff(x["stdout"], y["stdout"])), dict(kind="cli", case=a, impl=x, other_case=b2, other_impl=y))
     for k in range(ctx.scale(200, 2500)):
         book, log = tie_world(r)
         f = {"food.yaml": gen.render_items(r, book), "log.yaml": gen.render_items(r, log)}
@@ -413,7 +447,7 @@ def check_C05(ctx):
             ctx.violation("C05:differs-between-runs:" + c["cmd"], "%s gives different results on identical invocations: %r / %r" % (c["cmd"], a[0] + " " + repr(a[1][:150]), b2[0] + " " + repr(b2[1][:150])),
                           dict(kind="cli", case=c, outputs=[dict(status=s, stdout=o) for s, o in sorted(distinct)][:4], repeat=R))
             continue
-        d = run.compare_cli(m, outs[0])
+        d = run.compare_cli(m, outs[0], c)
         if d: ctx.violation("corr:C05:" + c["cmd"], d, dict(kind="cli", case=c, impl=outs[0], correspondence="S-CLI (extracted Coq model vs implementation)"), found_input=outs[0]["status"].startswith("crash"))
     # separate processes as well (fresh hash seeds)
     sub = cases[:: max(1, len(cases) // ctx.scale(40, 400))]
@@ -610,6 +644,24 @@ def check_C06(ctx):
                     c1 = dict(files=f, cmd="summary", arg=arg.encode(), f_today=d.strftime("%Y/%m/%d"), tz=tz, **NOCOLOR)
                     c2 = dict(files=fdel, cmd="reg", f_today=d.strftime("%Y/%m/%d"), tz=tz, **NOCOLOR)
                     cases.append(c1); pairs.append((len(cases) - 1, None, (sel, ds)))
+    # a date format that carries a zone, in a process zone that has the same offset on those days and changes it nearby (daylight saving): the selection
+    # must be the same in every process zone (time.Parse hands back a time in the LOCAL zone when the offsets match, and day arithmetic in a local zone
+    # follows its clock changes) - the implementation against itself under TZ = UTC / New_York / Tokyo
+    zf = "2006/01/02 -0700"
+    znov = {"food.yaml": book, "log.yaml": "".join("2021/11/%02d -0400:\n  bread: %d\n" % (d, d) for d in (5, 6, 7, 8, 9)).encode()}
+    znov5 = {"food.yaml": book, "log.yaml": "".join("2021/11/%02d -0500:\n  bread: %d\n" % (d, d) for d in range(1, 11)).encode()}
+    zcases = [dict(files=znov, cmd="summary", arg=b"2021/11/07 -0400", f_fmt=zf, f_today="2021/11/09 -0400", **NOCOLOR),
+              dict(files=znov, cmd="summary", arg=b"today", f_fmt=zf, f_today="2021/11/07 -0400", **NOCOLOR),
+              dict(files=znov5, cmd="print", f_fmt=zf, f_today="2021/11/08 -0500", g_begin="yesterday", g_end="yesterday", **NOCOLOR),
+              dict(files=znov5, cmd="csv-log", f_fmt=zf, f_today="2021/11/10 -0500", g_begin="last7", g_end="last7", **NOCOLOR),
+              dict(files=znov5, cmd="reg", f_fmt=zf, f_today="2021/11/08 -0500", g_begin="2021/11/07 -0500", g_end="2021/11/07 -0500", **NOCOLOR)]
+    zres = {tzn: impl_only(ctx, [dict(c, tz=(tzn, 0)) for c in zcases]) for tzn in ("UTC", "America/New_York", "Asia/Tokyo")}
+    for j, c in enumerate(zcases):
+        outs = {tzn: (zres[tzn][j]["status"], zres[tzn][j]["stdout"]) for tzn in zres}
+        if len(set(outs.values())) > 1:
+            other = [t for t in outs if outs[t] != outs["UTC"]][0]
+            ctx.violation("C06:zone-bearing-date-format-in-a-dst-zone", "%s under the date format %r gives another selection with TZ=%s than with TZ=UTC: %r / %r" % ((c["cmd"], zf, other) + first_diff(outs["UTC"][1], outs[other][1])),
+                          dict(kind="cli", case=dict(c, tz=(other, 0)), impl=zres[other][j], utc_impl=zres["UTC"][j]))
     ires = cli_diff(ctx, cases, tag="C06:")
     for a, b2, what in pairs:
         if b2 is None:
@@ -771,6 +823,27 @@ def check_C07(ctx):
             elif hs: ctx.tally("stats_oracle", "dates not recognisable: skipped")
         except (ValueError, IndexError, ZeroDivisionError, AttributeError) as e:
             viol("unparsable-report", "a report does not have its shape: %r" % (e,), "totals")
+    # stats on logs whose records lie far from --today (a time.Duration holds about 292 years) or begin at 0001/01/01 (Go's zero time)
+    far = []
+    for k in range(ctx.scale(12, 120)):
+        pool = [(1, 1, 1), (1, 1, 3), (1500, 6, 1), (1700, 1, 1), (1728, 9, 22), (1969, 12, 31), (2021, 1, 2), (2313, 4, 12), (2400, 1, 1), (9999, 12, 31)]
+        hs = r.sample(pool, r.randint(2, 5))
+        if k % 3 == 0: hs = [(1, 1, 1)] + [h for h in hs if h != (1, 1, 1)]
+        today = r.choice([(2021, 1, 2), (1, 1, 6), (2400, 1, 1)])
+        logb = "".join("%04d/%02d/%02d:\n  a: 1\n" % h for h in hs).encode()
+        far.append((dict(files={"food.yaml": b"x:\n  k: 1\n", "log.yaml": logb}, cmd="stats", f_today="%04d/%02d/%02d" % today, **NOCOLOR), hs, today))
+        ctx.nontriv(logb + bytes(str(today), "ascii"))
+    fres = cli_diff(ctx, [c for c, _, _ in far], tag="C07:stats-far:")
+    for (c, hs, today), i in zip(far, fres):
+        if i["status"] != "ok": continue
+        st = i["stdout"].decode("utf-8", "surrogateescape")
+        agos = re.findall(r"^[^:\n]+:[ \t]+(\S+) \((-?\d+) days? ago\)[ \t]*$", st, re.M)
+        if len(agos) != 2: continue
+        t0 = datetime.date(*today)
+        for label, h, (gd, gn) in (("first record", hs[0], agos[0]), ("last record", hs[-1], agos[1])):
+            want = (t0 - datetime.date(*h)).days
+            if gd != "%04d/%02d/%02d" % h or int(gn) != want:
+                ctx.violation("C07:stats-dates", "stats %s: %r, expected %04d/%02d/%02d (%d days before --today %s)" % ((label, (gd, gn)) + h + (want, c["f_today"])), dict(kind="cli", case=c, impl=i)); break
     return dict(rule="plain-name exact-arithmetic worlds; 14 reports per world on the real binary, each compared with the extracted Coq model, and the property's relations evaluated on the "
                 "implementation's own outputs: period totals = sum of daily register totals = sum of reg -s rows; bal -s grand total = period total; quantity = sum of csv log rows = "
                 "balance leaf (prefix-free logs); element-total rows = resolved csv rows; summary = register of the day; unresolved = logged foods minus book; stats counts and day "
@@ -900,6 +973,19 @@ def check_C08(ctx):
         ctx.tally("robustness_only_status", i["status"].split(":")[0])
         if i["status"].startswith("crash") or i["status"] == "timeout":
             ctx.violation("C08:crash:" + c["cmd"], "%s with an unusual file name (%s): %s %s" % (c["cmd"], {k2: c[k2] for k2 in ("f_config", "e_config", "f_db", "e_db", "f_log", "e_log", "arg", "raw_argv") if c.get(k2) is not None}, i["status"], (i.get("panic") or i.get("raw_err") or "")[:300]), dict(kind="cli", case=c, impl=i, robustness_only=True))
+    # the depth of the resolver's recursion is bounded by --maxdepth only: a very long ACYCLIC chain under a huge limit overflows the goroutine stack.
+    # With the default 1 GB stack that takes about 3 million links (a book of 70 MB and more: thorough tier); the in-process harness lowers the stack limit
+    # (HR_VERIF_MAXSTACK) so that 200 000 links suffice. The resolver starts at a random recipe, so a few tries may be needed.
+    nlinks = 200000
+    chainb = b"".join(b"r%d:\n  r%d: 1\n" % (j, j + 1) for j in range(nlinks))
+    cc = dict(files={"food.yaml": chainb, "log.yaml": b"2021/01/01:\n  r0: 1\n"}, cmd="csv-db-resolved", f_depth=1000000000, **NOCOLOR)
+    for attempt in range(4):
+        i = run.run_inproc_single(ctx.impl, cc, env_extra={"HR_VERIF_MAXSTACK": str(8 << 20)})
+        ctx.count(); ctx.tally("long_chain_under_huge_maxdepth", i["status"].split(":")[0])
+        if i["status"].startswith("crash") or i["status"] == "timeout":
+            ctx.violation("C08:stack-overflow:long-acyclic-chain-under-huge-maxdepth", "csv database-resolved --maxdepth 1000000000 on an acyclic chain of %d recipes (goroutine stack limited to 8 MB): %s %s" % (nlinks, i["status"], i["raw_err"][:200].replace("\n", " ")),
+                          dict(kind="cli", case=dict(cc, files={"food.yaml": "(a chain r0 -> r1 -> ... -> r%d, each 'rI:\\n  rI+1: 1')" % nlinks, "log.yaml": cc["files"]["log.yaml"]}), impl=i, stack_limit_bytes=8 << 20))
+            break
     # in-process (panics are recovered and reported with their stack) ...
     ires = cli_diff(ctx, [dict(c, sink=None) for c in cases], tag="C08:", inproc=True, keyf=lambda c: "C08:outcome:" + c["cmd"])
     # ... and the real binary (exit status / signal / timeout)
@@ -1163,6 +1249,21 @@ def check_C14(ctx):
         if r.random() < 0.3: c["g_begin"] = gen._fmt(layout, *r.choice(ds))
         cases.append(c); metas.append((layout, items)); ctx.tally("layout_sweep_tokens", len(toks))
         ctx.nontriv(logb + layout.encode())
+    # date formats whose text begins with a blank (a leading space in the layout, Go's space-padded day "_2"): the log is readable (the heading has no such
+    # blank: a space of the layout also matches nothing) but print writes the blank, and a line that begins with a blank is no heading
+    for k in range(ctx.scale(6, 40)):
+        layout = r.choice([" 2006/01/02", "_2/01/2006", "_2 Jan 2006", " 02.01.2006"])
+        ds = [(2021, r.randint(1, 12), r.randint(1, 9)) for _ in range(r.randint(2, 3))]
+        def head(y, m, d):
+            if layout == "_2/01/2006": return "%d/%02d/%04d" % (d, m, y)
+            if layout == "_2 Jan 2006": return "%d %s %04d" % (d, ["Jan", "Feb", "Mar", "Apr", "May", "Jun", "Jul", "Aug", "Sep", "Oct", "Nov", "Dec"][m - 1], y)
+            return gen._fmt(layout.strip(), y, m, d)
+        items = []
+        for (y, m, d) in ds:
+            items.append(("heading", head(y, m, d))); items.append(("entry", r.choice(["bread", "tea"]), gen.number(r, True)))
+        logb = gen.render_items(r, items, crlf=False, final_newline=True)
+        cases.append(dict(files={"log.yaml": logb}, cmd="print", f_fmt=layout, **NOCOLOR)); metas.append((layout, items)); ctx.tally("layout_begins_with_blank", layout)
+        ctx.nontriv(logb + layout.encode())
     # days whose midnight does not exist in the process time zone (daylight saving starts at 00:00): the printed day must still be the day read
     gaps = gen.midnight_gap_days()
     for k in range(min(len(gaps), ctx.scale(24, 200))):
@@ -1183,6 +1284,7 @@ def check_C14(ctx):
     # every food of a day is printed once (duplicates of a day merged)
     for c, (layout, items), i in zip(cases, metas, ires):
         if c["cmd"] != "print" or i["status"] != "ok": continue
+        if layout[:1] in (" ", "_"): continue       # the formatted date begins with a blank: judged in the second round (a finding of its own)
         heads = [it[1] for it in items if it[0] == "heading"]
         if any(h != h.strip(" \t:\"-") or not h for h in heads): continue       # a heading the parser would trim: outside this relation
         if c.get("g_begin") is not None or c.get("g_end") is not None:
@@ -1218,6 +1320,9 @@ def check_C14(ctx):
     for t in range(0, len(second), 3):
         j = idx[t]; p1 = ires[j]; p2, c2, c1 = ires2[t], ires2[t + 1], ires2[t + 2]
         rep = dict(kind="cli", case=cases[j], impl=p1, printed_again=p2)
+        blank0 = metas[j][0][:1] in (" ", "_")      # the formatted date begins with a blank: a finding of its own
+        if blank0 and (p2["status"] != "ok" or p2["stdout"] != p1["stdout"]):
+            ctx.violation("C14:date-format-begins-with-a-blank", "under the date format %r print writes headings that begin with a blank; read back they are not headings: %s / %r" % (metas[j][0], p2["status"][:40], first_diff(p1["stdout"], p2["stdout"])), rep); continue
         if p2["status"] != "ok":
             ctx.violation("C14:printed-log-not-readable", "the tool cannot read its own print output under the same options: %s %s" % (p2["status"][:60], p2.get("raw_err", "")[:200]), rep); continue
         if p2["stdout"] != p1["stdout"]:
@@ -1245,7 +1350,7 @@ def check_C14(ctx):
 # ---------------------------------------------------------------------------
 def check_C15(ctx):
     r = ctx.rng
-    cases = []; groups = []
+    cases = []; groups = []; falses = []
     for k in range(ctx.scale(150, 4000)):
         w = gen.world(r, envelope=r.random() < 0.5, fancy=r.choice([0, 0.3]))
         if r.random() < 0.5: w["log"].append(("heading", "2021/02/02"))      # a day without entries
@@ -1270,6 +1375,13 @@ def check_C15(ctx):
                 c = dict(files=f, cmd="element-total", arg=els[0].encode(), desc=desc); c.update({} if color else NOCOLOR); g[("et", desc, color)] = len(cases); cases.append(c)
             for mode in ({}, dict(collapse=True), dict(collapse_last=True)):
                 c = dict(files=f, cmd="bal", **mode); c.update({} if color else NOCOLOR); g[("bal", tuple(mode), color)] = len(cases); cases.append(c)
+        # presentation flags given with the explicit value false are the same as not given
+        ff = r.sample(["no_totals", "totals_only", "shorten", "old", "csv", "l_no_color", "g_no_color"], r.randint(1, 4))
+        base_color = {} if ("l_no_color" in ff or "g_no_color" in ff) else NOCOLOR
+        falses.append((len(cases), len(cases) + 1)); cases.append(dict(files=f, cmd="reg", false_flags=ff, **base_color)); cases.append(dict(files=f, cmd="reg", **base_color))
+        fb = r.sample(["collapse", "collapse_last"], r.randint(1, 2))
+        falses.append((len(cases), len(cases) + 1)); cases.append(dict(files=f, cmd="bal", false_flags=fb, **NOCOLOR)); cases.append(dict(files=f, cmd="bal", **NOCOLOR))
+        falses.append((len(cases), len(cases) + 1)); cases.append(dict(files=f, cmd="quantity", false_flags=["desc"], **NOCOLOR)); cases.append(dict(files=f, cmd="quantity", **NOCOLOR))
         groups.append(g)
         ctx.nontriv(f["food.yaml"] + f["log.yaml"])
         if k < 1: ctx.sample(dict(book=f["food.yaml"], log=f["log.yaml"]))
@@ -1282,7 +1394,25 @@ def check_C15(ctx):
                       dict(cmd="quantity"), dict(cmd="totals"), dict(cmd="unresolved"), dict(cmd="print"), dict(cmd="summary", arg=b"2021/01/01")):
             c = dict(files=f, **extra); c.update({} if r.random() < 0.3 else NOCOLOR); oddc.append(c)
         ctx.nontriv(f["food.yaml"] + f["log.yaml"])
-    cli_diff(ctx, oddc, tag="C15:odd-names:")
+    odd_res = cli_diff(ctx, oddc, tag="C15:odd-names:")
+    # "a shortened name keeps a prefix and suffix of the original within the column width": byte for byte, also when the name is not valid UTF-8
+    def go_runes(bs):
+        return [ch.encode("utf-8", "surrogateescape") for ch in bs.decode("utf-8", "surrogateescape")]
+    for c, i in zip(oddc, odd_res):
+        if not (c["cmd"] == "reg" and c.get("shorten") and not c.get("old") and i["status"] == "ok"): continue
+        plain = strip_sgr(i["stdout"])
+        logged = {l.strip().rsplit(b": ", 1)[0] for l in c["files"]["log.yaml"].split(b"\n") if l.startswith(b"  ")}
+        for nm in sorted(logged):
+            rs = go_runes(nm)
+            if len(rs) <= 27: continue
+            delta = 27 // 2 if len(rs) % 2 == 0 else 26 // 2
+            want = b"".join(rs[:delta]) + "\u2026".encode() + b"".join(rs[len(rs) - 27 + 1 + delta:])
+            if c.get("totals_only"): continue
+            if want not in plain:
+                valid = all(len(x) > 1 or x[0] < 0x80 for x in rs) and b"\xef\xbf\xbd" not in nm
+                key = "C15:shortened-name-not-prefix-and-suffix" + ("" if valid else ":name-not-valid-utf8")
+                ctx.violation(key, "the shortened form of the food name %r is not its first %d and last %d characters around an ellipsis (expected %r in the register)" % (nm, delta, 26 - delta, want),
+                              dict(kind="cli", case=c, impl=i, name=nm, expected=want)); break
     # amounts that print as 0.00 / -0.00 but are not zero keep the colour of their sign; names that are path-prefixes of others in the balance
     tiny_cases = []
     for k in range(ctx.scale(12, 300)):
@@ -1319,6 +1449,10 @@ def check_C15(ctx):
                     if cols != want:
                         ctx.violation("C15:colour-by-sign-of-amount", "the amount %s of %r is printed %r with colour %r (positive red 31, negative green 32, zero none)" % (lex, nm, plain.strip()[:60], sorted(cols)),
                                       dict(kind="cli", case=cases[idx], impl=i)); break
+    for a, b2 in falses:
+        if (ires[a]["status"], ires[a]["stdout"]) != (ires[b2]["status"], ires[b2]["stdout"]):
+            ctx.violation("C15:flag-given-as-false:" + cases[a]["cmd"], "%s with %s given as =false differs from the run without them: %r / %r" % ((cases[a]["cmd"], cases[a]["false_flags"]) + first_diff(ires[a]["stdout"], ires[b2]["stdout"])),
+                          dict(kind="cli", case=cases[a], impl=ires[a], other_case=cases[b2], other_impl=ires[b2]))
     num_re = re.compile(rb"-?\d+\.\d\d|NaN|[+-]Inf")
     for g in groups:
         def o(key): return ires[g[key]]
